@@ -7,6 +7,18 @@ ids = [json.loads(l)["id"] for l in open(os.path.join(ROOT, "properties.jsonl"))
 
 TECH = "deterministic whole-program simulation (std-facade substitution under a seeded scheduler) with fault injection; "
 CLAIMED = {
+    "C13": dict(
+        level="exploration", ref="DESIGN.md 5/C13",
+        text="Seeded sequences of plain / versioned / stale writes interleaved with arbiter connect, disconnect and resolve (the arbiter is a harness session that echoes op id and version of the oldest notice) on an arbiter-strategy database, on one node and in 2-3 node clusters with arbiter and writer on the primary or a secondary; a conflict-queue model per key checks refusal vs queueing, the $conflicts_ records, once-per-registration delivery, the value after each resolution, writability and emptiness at the end and replica agreement.",
+        note="arbiter client is a stub; an error reply is not required when a conflict is queued; arbiter/writer on a secondary are recorded known findings",
+        technique=TECH + "conflict-queue reference model stepped operation by operation, replicas compared at quiescence",
+    ),
+    "C19": dict(
+        level="exploration", ref="DESIGN.md 5/C19",
+        text="1-6 plain and versioned writes (below/at/above the current version, unique values) on a newer-strategy database (and on $admin): sequentially with background snapshots in between, from two concurrent sessions under lock-level interleavings (history linearizable against 'store your value or keep the current one, reply = stored value'), and replicated to 1-2 secondaries; no write may be refused, the reply of the storage API names the stored value, versions never decrease, watchers are notified iff the value changed, replicas hold the primary's values.",
+        note="the reply is observed at db_ops::set_key_value (the transports reduce it to ok); replica versions are C04's subject",
+        technique=TECH + "linearizability check of concurrent write histories plus sequential oracle and replica comparison",
+    ),
     "C05": dict(
         level="exploration", ref="DESIGN.md 5/C05",
         text="A real primary accumulates a seeded history over 1-3 databases; the second real node has never been up, was killed or was shut down by SIGINT (with or without a snapshot on its simulated disk) and then (re)joins through the real join / election / replicate-since protocol while a writer keeps writing on the primary; at quiescence its white-box dump must equal the primary's (token, strategy, values byte for byte, versions, removed keys). Fault sequences = departure kind x split of the history x writes racing the synchronisation.",
